@@ -41,6 +41,7 @@ func checkC07(c *Ctx, r *Report) {
 	c07NilFields(c, r, "C07.R6.nil-fields")
 	ttlNoWrap(c, r, "C07.R3.ttl-no-wrap")
 	rfc3597Whole(c, r, "C07.R3.rfc3597-whole")
+	c07RdataErrorRebuild(c, r, "C07.R5.error-position")
 }
 
 var fileOpeners = map[string]bool{"os.Open": true, "os.OpenFile": true, "os.ReadFile": true, "os.Create": true, "fs.ReadFile": true, "ioutil.ReadFile": true, "os.ReadDir": true, "(fs.FS).Open": true, "(io/fs.FS).Open": true}
